@@ -35,6 +35,7 @@ RULES = {
     "C08-H4": "the scanner never examines bytes beyond the received data (cursor reads/advances guarded)",
     "C08-H5": "the buffer is NUL-terminated after the last change of the fill level before every parse",
     "C08-H7": "the text attached to -113 is cut before every trailing terminator byte (CR and LF alike), so it does not depend on whether CR and LF arrived in the same call",
+    "C08-H8": "the overrun refusal is exact: a chunk is refused only if position + len + 1 > buffer length (data that fits is never discarded)",
     "C08-H6": "a line is executed exactly when the scanner reports a NL termination",
 }
 
@@ -205,6 +206,14 @@ def rule_h7(ck, prog, S):
         return
     term = {C.const_of(C.call_args(c)[1]) for c in nl.calls("skipChr")} - {None}
     pushes = [c for c in parse.calls("SCPI_ErrorPushEx") if C.const_of(K.arg(c, 1)) == -113]
+    if not pushes:
+        # the push may live in a static helper of the parser: analyse it where it is
+        for g in prog.functions.values():
+            if g.static and g.relfile.endswith("parser.c"):
+                ps_ = [c for c in g.calls("SCPI_ErrorPushEx") if C.const_of(K.arg(c, 1)) == -113]
+                if ps_:
+                    pushes, parse = ps_, g
+                    break
     if not term or len(pushes) != 1:
         ck.anchor_lost("C08-H7", "terminator bytes of scpiLex_NewLine (%s) / the -113 push with text (%d)" % (sorted(term), len(pushes)))
         return
@@ -278,6 +287,36 @@ def rule_h7(ck, prog, S):
         ck.undecided("C08-H7", st, K.loc(parse, push), "trimming of the -113 text not found in SCPI_Parse (length argument `%s`)" % a[3].src)
 
 
+def rule_h8(ck, prog, S):
+    f = prog.fn("SCPI_Input")
+    if f is None:
+        return
+    cps = list(f.calls("memcpy"))
+    if len(cps) != 1:
+        ck.anchor_lost("C08-H8", "the append in SCPI_Input")
+        return
+    POS, LEN = "context->buffer.position", "context->buffer.length"
+    lenp = C.call_args(cps[0])[2].strip_all_casts().get("path")
+    st = K.site(f, "overrun-guard-exact", 0)
+    ks = []
+    for atom, pol in K.facts_at(S, f, cps[0]) or []:
+        if isinstance(pol, tuple) or atom.k != "BinaryOperator" or atom.get("op") not in (">", ">=", "<", "<="):
+            continue
+        k = c01.guard_slack(f, atom, pol, lenp, POS, LEN)
+        if k is not None:
+            ks.append((k, atom))
+    if not ks:
+        ck.undecided("C08-H8", st, K.loc(f, cps[0]), "no linear overrun guard found in front of the append")
+        return
+    k, atom = max(ks, key=lambda x: x[0])
+    if k > 1:
+        ck.violated("C08-H8", st, K.loc(f, atom),
+                    "the guard `%s` refuses chunks for which position + len + 1 <= length still holds (slack %d): input that "
+                    "exactly fills the buffer is discarded with -363 although nothing overran" % (atom.src, k - 1))
+    else:
+        ck.holds("C08-H8", st, K.loc(f, atom), "accepted iff position + len + 1 <= length (`%s`)" % atom.src)
+
+
 def run(ck, fb, tier):
     for cfg in fb.configs:
         ck.config = cfg
@@ -291,6 +330,7 @@ def run(ck, fb, tier):
         c01.rule_l1_l2(ck, prog, S, model, "C08-H4", "C08-H4")
         h5(ck, prog, S)
         rule_h7(ck, prog, S)
+        rule_h8(ck, prog, S)
     ck.assume("the stream never leaves more unterminated data pending than the input buffer holds (the property's precondition)")
 
 
